@@ -23,6 +23,7 @@ type Clause struct {
 type ModClause struct {
 	src   string
 	all   bool
+	allMaps bool // every map heap may change, nothing else
 	heaps []string
 	sorts []Sort
 	at    ast.Expr // base reference expression (nil: whole heap)
@@ -59,6 +60,7 @@ type Contract struct {
 	NativeStr    bool
 	Props        []string // property ids this contract serves
 	Asserts      []*Clause
+	Counts       map[string]string // callee short name -> ghost counter of calls
 	Observe      map[string]string // callee short name -> ghost variable holding its last result
 	Before       map[string][]*Clause // callee short name -> assertions checked before each call
 	resolved     bool
@@ -129,7 +131,7 @@ type RecFunc struct {
 	Body   string // SMT body (raw)
 }
 
-var clauseKW = regexp.MustCompile(`^(requires|ensures|modifies|held|acquires|loop|option|props|assert|before|observe)\b`)
+var clauseKW = regexp.MustCompile(`^(requires|ensures|modifies|held|acquires|loop|option|props|assert|before|observe|count)\b`)
 var labelRe = regexp.MustCompile(`^([A-Za-z][A-Za-z0-9_\-]*):\s+(.*)$`)
 
 func parseClause(src string, line int) (*Clause, error) {
@@ -335,6 +337,15 @@ func parseContractFile(path, pkgPath string) (*PkgSpec, error) {
 				cur.Before = map[string][]*Clause{}
 			}
 			cur.Before[rest[:k]] = append(cur.Before[rest[:k]], c)
+		case strings.HasPrefix(t, "count "):
+			m := regexp.MustCompile(`^count\s+([A-Za-z_][A-Za-z0-9_]*)\s*:=\s*(\S+)$`).FindStringSubmatch(t)
+			if m == nil {
+				return nil, fail(fmt.Errorf("bad count clause"))
+			}
+			if cur.Counts == nil {
+				cur.Counts = map[string]string{}
+			}
+			cur.Counts[m[2]] = m[1]
 		case strings.HasPrefix(t, "observe "):
 			// observe late := IsEventTimeLate
 			m := regexp.MustCompile(`^observe\s+([A-Za-z_][A-Za-z0-9_]*)\s*:=\s*(\S+)$`).FindStringSubmatch(t)
